@@ -46,7 +46,7 @@ CHECKS = {
             "machine-checked proof (Coq 8.16) on a hand-written model + differential correspondence check with fault enumeration",
             "DESIGN.md 8.C07"),
     "C19": ("proof",
-            "Coq theorems (Props/C19.v, 9: c19_must_and_maximal, c19_buffer, c19_reset, c19_greedy_optimal, c19_count, c19_optimal, "
+            "Coq theorems (Props/C19.v, 10: c19_must_and_maximal, c19_buffer, c19_reset, c19_greedy_optimal, c19_count, c19_optimal, "
             "c19_count_segments + witnesses) about Model/Writer.v: at every reachable state and under every fault script an emit "
             "writes only if buffered+metric+terminator >= capacity and every datagram it flushes could not have taken the new "
             "metric; for fault-free lives of fitting metrics the number of datagrams carrying bytes EQUALS the number of blocks "
@@ -163,7 +163,7 @@ CHECKS.update({
 
 CHECKS.update({
     "C13": ("proof",
-            "Coq theorems (Props/C13.v, 10) about Model/{Stats,Sock,Writer}.v: an unbuffered sink hands send_to exactly one "
+            "Coq theorems (Props/C13.v, 12) about Model/{Stats,Sock,Writer}.v: an unbuffered sink hands send_to exactly one "
             "datagram per emit whose payload is the metric's bytes unchanged, to the first resolved address, and passes the "
             "OS's answer through; the buffered sinks' datagram stream is the C05 stream of the line-buffering writer with "
             "terminator '\\n' and capacity 512 unless configured, the rest leaves on flush; the scenarios the correspondence "
@@ -213,13 +213,16 @@ CHECKS.update({
             "machine-checked proof (Coq 8.16) on a hand-written model + differential correspondence check on real threads (observed lock order replayed in the model)",
             "DESIGN.md 8.C12"),
     "C17": ("proof",
-            "Coq theorems (Props/C17.v, 8) about Model/Macro.v - the expansion of _generate_impl! as an instruction list run by an "
+            "Coq theorems (Props/C17.v, 12) about Model/Macro.v - the expansion of _generate_impl! as an instruction list run by an "
             "interpreter over the client model of C01/C03 - for every macro, argument, number of tag pairs, client configuration "
             "and sink script: with a global client set the macro hands the sink exactly the strings, the handler exactly the "
             "errors and consumes exactly the sink answers of <kind>_with_tags + with_tag per pair in written order + quiet send "
             "(one emit, the line of C01); every argument expression is evaluated exactly once in the written order; it panics "
             "iff no client is set, and then nothing is evaluated, emitted or handled; the seven front ends use the method of "
-            "their own kind.  Correspondence: one fresh child process per case; 132 statically expanded call sites (22 value "
+            "their own kind; whole processes (Macro.run_process: who offers a client first wins, later offers change nothing; "
+            "with the observed client in the holder the invocations are the tagged quiet sends one after the other, with another "
+            "client in it the observed sink sees nothing) - the process is run by the Gallina function, the OCaml glue only parses "
+            "and prints, a sample is re-evaluated by the kernel on every run.  Correspondence: one fresh child process per case; 132 statically expanded call sites (22 value "
             "types x 0..5 tag pairs) whose argument expressions log their evaluation; clients with prefix/default tags/"
             "container/refusing sink/handler; invocations before the set, after a second (ignored) set, on fresh threads; "
             "compared with the extracted model and judged against the property with the reference evaluation of C01-C04; "
